@@ -18,6 +18,9 @@ RuleClass(k) ==
     [] k \in {"RefNoTable", "GroupNoTable"} -> "TableNotFoundError"
     [] k \in {"RefNoColumn", "IdxNoColumn"} -> "ColumnNotFoundError"
 
+\* letter case folded for the pool's column names (TLC strings are atomic: a table, not a function on characters)
+Fold(n) == CASE n \in {"id", "ID", "Id", "iD"} -> "id" [] n \in {"name", "NAME", "Name"} -> "name" [] n \in {"type", "TYPE", "Type"} -> "type"
+             [] n \in {"note", "NOTE", "Note"} -> "note" [] n \in {"pk", "PK", "Pk"} -> "pk" [] n \in {"Ref", "REF", "ref"} -> "ref" [] OTHER -> n
 Where(doc, k) == Idxs(doc, LAMBDA x : x.d = k)      \* positions of the declarations of one kind
 PickPos(sd, key, q) == q[(H(sd, key) % Len(q)) + 1]
 InsertSomewhere(sd, doc, x) == InsertAt(doc, (H(sd, 901) % (Len(doc) + 1)) + 1, x)
@@ -131,8 +134,12 @@ Inject(sd, base, k) ==
                                               right |-> IF left THEN good ELSE bad, onupdate |-> "", ondelete |-> "", comment |-> ""])
             ELSE [base EXCEPT ![tpos].cols[1].refs = Append(@, [type |-> Pick(sd, 922, RefKinds), addr |-> bad])]
     [] k = "IdxNoColumn" ->
-         [base EXCEPT ![tpos].idxs = Append(@, [subj |-> IF Coin(sd, 923, 50) THEN <<[k |-> "col", v |-> "zz_nocol"]>>
-                                                         ELSE <<[k |-> "col", v |-> t.cols[1].name], [k |-> "col", v |-> "zz_nocol"]>>,
+         \* (near miss: a name that differs from an existing column's only in letter case, where no column is spelt that way)
+         LET variants == SelectSeq(<<"ID", "Id", "iD", "NAME", "Name", "TYPE", "Type", "NOTE", "PK", "Pk", "REF">>,
+                                   LAMBDA v : ColIdx(t, v) = 0 /\ \E c \in DOMAIN t.cols : Fold(t.cols[c].name) = Fold(v))
+             missing == IF variants # <<>> /\ Coin(sd, 935, 60) THEN PickPos(sd, 936, variants) ELSE "zz_nocol" IN
+         [base EXCEPT ![tpos].idxs = Append(@, [subj |-> IF Coin(sd, 923, 50) THEN <<[k |-> "col", v |-> missing]>>
+                                                         ELSE <<[k |-> "col", v |-> t.cols[1].name], [k |-> "col", v |-> missing]>>,
                                                 name |-> "", unique |-> FALSE, pk |-> FALSE, type |-> "", note |-> "", comment |-> ""])]
     [] k = "GroupNoTable" ->
          LET elsewhere == SelectSeq(tabs, LAMBDA x : Locate(tabs, "", x.name, FALSE) = 0) IN
